@@ -144,6 +144,8 @@ type VC struct {
 	curBlock  *ssa.BasicBlock
 	blockExit map[*ssa.BasicBlock]string
 	rangeOf   map[ssa.Value]ssa.Value
+	heapBound map[string]string
+	assertSet map[string]bool
 }
 
 type loopInfo struct {
@@ -207,6 +209,13 @@ func (vc *VC) assume(f string) {
 		return
 	}
 	r := vc.root()
+	if r.assertSet == nil {
+		r.assertSet = map[string]bool{}
+	}
+	if r.assertSet[f] {
+		return
+	}
+	r.assertSet[f] = true
 	r.asserts = append(r.asserts, f)
 }
 func (vc *VC) note(s string) { vc.root().notes[s] = true }
@@ -313,6 +322,11 @@ func (vc *VC) rangeFact(term string, l Leaf, h Heap) string {
 		}
 		return f
 	case SSlice:
+		if id, ok := vc.backingType(l.T); ok {
+			return and(vc.sliceRange(term, h), implies(not(eq("(s_obj "+term+")", "0")), and(eq("(dyntype (s_obj "+term+"))", num(int64(id))), eq("(s_slot "+term+")", "0"))))
+		}
+		return vc.sliceRange(term, h)
+	case Sort(99):
 		return "(and (<= 0 (s_obj " + term + ")) (<= (s_obj " + term + ") " + h.Alloc + ") (<= 0 (s_off " + term + ")) (<= 0 (s_len " + term + ")) (<= (s_len " + term + ") (s_cap " + term + ")) (<= (s_cap " + term + ") " + maxLen + ") (=> (= (s_obj " + term + ") 0) (= (s_cap " + term + ") 0)))"
 	case SIface:
 		return "(and (<= 0 (p_obj (i_pl " + term + "))) (<= (p_obj (i_pl " + term + ")) " + h.Alloc + ") (<= 0 (i_tid " + term + ")) (=> (= (i_tid " + term + ") 0) (= " + term + " niliface)))"
@@ -320,6 +334,40 @@ func (vc *VC) rangeFact(term string, l Leaf, h Heap) string {
 		return "(and (<= 0 " + term + ") (<= " + term + " " + h.Alloc + "))"
 	}
 	return "true"
+}
+
+func (vc *VC) sliceRange(term string, h Heap) string {
+	return "(and (<= 0 (s_obj " + term + ")) (<= (s_obj " + term + ") " + h.Alloc + ") (<= 0 (s_off " + term + ")) (<= 0 (s_len " + term + ")) (<= (s_len " + term + ") (s_cap " + term + ")) (<= (s_cap " + term + ") " + maxLen + ") (=> (= (s_obj " + term + ") 0) (= (s_cap " + term + ") 0)))"
+}
+
+// backingType: slices whose element type never occurs as the element of a declared array type
+// are backed by dedicated allocations (make/append/literals); those get a dyntype id.
+func (vc *VC) backingType(t types.Type) (int, bool) {
+	var el types.Type
+	switch u := t.Underlying().(type) {
+	case *types.Slice:
+		el = u.Elem()
+	case *types.Array:
+		el = u.Elem()
+	default:
+		return 0, false
+	}
+	vc.root().P.nestedByValue()
+	k := types.TypeString(el, nil)
+	if vc.root().P.arrayElems[k] {
+		return 0, false
+	}
+	return vc.typeID2("[]backing:" + k), true
+}
+
+func (vc *VC) typeID2(s string) int {
+	r := vc.root()
+	if id, ok := r.typeIDs[s]; ok {
+		return id
+	}
+	id := len(r.typeIDs) + 1
+	r.typeIDs[s] = id
+	return id
 }
 
 // baseType: named struct types never nested by value anywhere get a dyntype id and the
@@ -344,6 +392,42 @@ func (vc *VC) assumeRanges(guard string, terms []string, t types.Type, h Heap) {
 		if i < len(terms) {
 			vc.assume(implies(guard, vc.rangeFact(terms[i], l, h)))
 		}
+	}
+}
+
+// recordBounds remembers, for every heap version, the allocation counter at the time the
+// version came into existence: every reference stored in that version is <= that counter.
+func (vc *VC) recordBounds(h *Heap) {
+	r := vc.root()
+	if r.heapBound == nil {
+		r.heapBound = map[string]string{}
+	}
+	for s := Sort(0); s < nSorts; s++ {
+		if _, ok := r.heapBound[h.H[s]]; !ok {
+			r.heapBound[h.H[s]] = h.Alloc
+		}
+	}
+	for _, n := range h.M {
+		if _, ok := r.heapBound[n]; !ok {
+			r.heapBound[n] = h.Alloc
+		}
+	}
+}
+
+// assumeLoadRanges is assumeRanges for values read from heap version h: references are
+// bounded by the allocation counter of the version they were read from.
+func (vc *VC) assumeLoadRanges(terms []string, t types.Type, h Heap) {
+	r := vc.root()
+	ls := vc.L.Leaves(t)
+	for i, l := range ls {
+		if i >= len(terms) {
+			break
+		}
+		hb := h
+		if b, ok := r.heapBound[h.H[l.Sort]]; ok {
+			hb.Alloc = b
+		}
+		vc.assume(vc.rangeFact(terms[i], l, hb))
 	}
 }
 
@@ -387,8 +471,11 @@ func (vc *VC) zeroVals(t types.Type) []string {
 var innerSort = [...]string{"Int", "Bool", "Str", "F64", "Ptr", "Slice", "Iface", "Int"}
 
 func zeroObj(s Sort) string {
-	return fmt.Sprintf("((as const (Array Int (Array Int %s))) ((as const (Array Int %s)) %s))", innerSort[s], innerSort[s], s.Zero())
+	return fmt.Sprintf("((as const (Array Int (Array Int %s))) ((as const (Array Int %s)) %s))", innerSort[s], innerSort[s], zeroLit[s])
 }
+
+// literal zero values (cvc5 wants values, not defined constants, in constant arrays)
+var zeroLit = [...]string{"0", "false", "str_empty", "f64_zero", "(mkptr 0 0 0)", "(mkslice 0 0 0 0 0)", "(mkiface 0 (mkptr 0 0 0))", "0"}
 
 // alloc creates a fresh object; all of its slots are zero in every heap kind.
 func (vc *VC) alloc(h *Heap, guard string, dyn int) string {
